@@ -32,7 +32,7 @@ func init() {
 			for i := 0; i < n; i++ {
 				out = append(out, Child{Flavour: "plain", NCPU: []int{1, 2, 3, 5, 1, 2, 4, 7}[i%8], Shard: i, NShards: n})
 			}
-			return out
+			return plus386(out, 3)
 		},
 		Run: runC05,
 	})
